@@ -9,12 +9,12 @@ import sqlite3
 from . import tlc
 from .tlc import MachineryError
 from pony.orm import core
-from pony.orm.core import Database, PrimaryKey, Required, Set, db_session, commit, rollback
+from pony.orm.core import Database, PrimaryKey, Required, Optional, Set, db_session, commit, rollback
 
 
-def cfg(level):
-    return ('INIT Init\nNEXT Next\nCONSTANTS\n PIds = {1, 2}\n CIds = {1, 2}\n MaxLevel = %d\nCONSTRAINT Bounded\nCHECK_DEADLOCK FALSE\n'
-            'INVARIANT ViewWellFormed\nINVARIANT CommitAlwaysPossible\n' % level)
+def cfg(level, mode='refuse'):
+    return ('INIT Init\nNEXT Next\nCONSTANTS\n PIds = {1, 2}\n CIds = {1, 2}\n MaxLevel = %d\n Mode = "%s"\nCONSTRAINT Bounded\n'
+            'CHECK_DEADLOCK FALSE\nINVARIANT ViewWellFormed\nINVARIANT CommitAlwaysPossible\n' % (level, mode))
 
 
 def fmap(x):
@@ -24,23 +24,24 @@ def fmap(x):
 
 
 def norm(s):
-    return set(s['P']), {c: p for c, p in fmap(s['C']).items() if p}
+    return set(s['P']), {c: (p if p > 0 else None) for c, p in fmap(s['C']).items() if p}
 
 
 class World:
-    def __init__(self, path):
+    def __init__(self, path, mode='refuse'):
         self.path = path
+        self.mode = mode
         db = self.db = Database()
 
         class P(db.Entity):
             _table_ = 'tp'
             id = PrimaryKey(int)
-            cs = Set('C', cascade_delete=False)
+            cs = Set('C', cascade_delete=(mode == 'cascade'))
 
         class C(db.Entity):
             _table_ = 'tc'
             id = PrimaryKey(int)
-            p = Required(P, column='p_id')
+            p = Optional(P, column='p_id') if mode == 'unlink' else Required(P, column='p_id')
 
         self.P, self.C = P, C
         db.bind('sqlite', path, create_db=True)
@@ -87,20 +88,29 @@ def run_path(w, init, seq):
     try:
         with db_session:
             objs = {('P', o.id): o for o in w.P.select()[:]}
+            par = {}
             for o in w.C.select()[:]:
                 objs[('C', o.id)] = o
-                o.p
+                par[o.id] = o.p.id if o.p is not None else None
             for op, x, y in seq:
                 if op == 'CreateP':
                     objs[('P', x)] = w.P(id=x)
                 elif op == 'DeleteP':
                     objs.pop(('P', x)).delete()
+                    for c in [c for c, p in par.items() if p == x]:
+                        if w.mode == 'cascade':
+                            objs.pop(('C', c)); del par[c]          # deleted with its parent
+                        else:
+                            par[c] = None
                 elif op == 'CreateC':
                     objs[('C', x)] = w.C(id=x, p=objs[('P', y)])
+                    par[x] = y
                 elif op == 'Move':
-                    objs[('C', x)].p = objs[('P', y)]
+                    objs[('C', x)].p = objs[('P', y)] if y > 0 else None
+                    par[x] = y if y > 0 else None
                 elif op == 'DeleteC':
                     objs.pop(('C', x)).delete()
+                    par.pop(x, None)
                 else:
                     raise MachineryError('unknown action %r' % op)
             try:
@@ -116,15 +126,15 @@ def run_path(w, init, seq):
     return None
 
 
-def run(ctx, level):
-    nodes, edges, inits, res = tlc.dump_graph('PonyOrder', cfg(level), ctx.scratch, workers=4)
+def run(ctx, level, mode='refuse'):
+    nodes, edges, inits, res = tlc.dump_graph('PonyOrder', cfg(level, mode), ctx.scratch, workers=4, tag='PonyOrder-' + mode)
     succ = {}
     for s, d in edges:
         if d not in succ.setdefault(s, []):
             succ[s].append(d)
-    w = World(ctx.scratch.path('db', 'order.sqlite'))
+    w = World(ctx.scratch.path('db', 'order-%s.sqlite' % mode), mode)
     found = []
-    stats = {'paths': 0, 'calls': 0, 'known_pattern_paths': 0, 'graph_states': len(nodes), 'graph_transitions': len(set(edges))}
+    stats = {'mode': mode, 'paths': 0, 'calls': 0, 'known_pattern_paths': 0, 'graph_states': len(nodes), 'graph_transitions': len(set(edges))}
     stack = [(i, i, []) for i in inits]
     while stack:
         u, root, calls = stack.pop()
@@ -150,14 +160,14 @@ def run(ctx, level):
             known = known_pattern(calls) and 'FOREIGN KEY constraint failed' in bad
             if known:
                 stats['known_pattern_paths'] += 1
-            found.append((known, bad, {'init': [sorted(init[0]), {str(k): v for k, v in init[1].items()}], 'calls': calls}))
+            found.append((known, bad, {'mode': mode, 'init': [sorted(init[0]), {str(k): v for k, v in init[1].items()}], 'calls': calls}))
     w.db.disconnect()
     return res, stats, found
 
 
 def replay(ctx, rep):
-    w = World(ctx.scratch.path('db', 'order.sqlite'))
     tr = rep['order_path']
+    w = World(ctx.scratch.path('db', 'order.sqlite'), tr.get('mode', 'refuse'))
     init = (set(tr['init'][0]), {int(k): v for k, v in tr['init'][1].items()})
     calls = [tuple(c) for c in tr['calls']]
     print('initial rows %r; calls %r' % (init, calls))
